@@ -176,9 +176,9 @@ Proof.
     apply andb_true_iff in EH as [EH E4]. apply andb_true_iff in EH as [EH E3]. apply andb_true_iff in EH as [E1 E2].
     apply octet_true in E1, E2, E3, E4.
     exists v1, v2, v3, v4, v5, v6. fold h1 h2 h3 h4 p1 p2.
-    repeat split; try assumption; try (unfold zoctet; lia).
-    + intros ->. cbn [andb] in ES. lia.
-    + apply is_any_v4mapped; assumption.
+    assert (NZ : ~ (h1 = 0 /\ h2 = 0 /\ h3 = 0 /\ h4 = 0)%Z) by (apply is_any_v4mapped; assumption).
+    assert (SA : sanity = true -> (1024 <= p1 * 256 + p2)%Z) by (intros ->; cbn [andb] in ES; lia).
+    unfold zoctet in *. repeat split; try assumption; try lia.
   - assert (EA : is_any zero16 = true) by reflexivity. rewrite EA. discriminate.
 Qed.
 
@@ -215,8 +215,9 @@ Proof.
   destruct (p1 * 256 + p2 <=? 0)%Z eqn:E0; [discriminate|].
   destruct (sanity && (p1 * 256 + p2 <? 1024)%Z) eqn:ES; [discriminate|].
   intros H; inversion H; subst a port; clear H.
-  exists v1, v2, v3, v4, v5, v6. fold p1 p2. repeat split; try (unfold zoctet; lia).
-  intros ->. cbn [andb] in ES. lia.
+  exists v1, v2, v3, v4, v5, v6. fold p1 p2.
+  assert (SA : sanity = true -> (1024 <= p1 * 256 + p2)%Z) by (intros ->; cbn [andb] in ES; lia).
+  unfold zoctet. repeat split; try assumption; try lia.
 Qed.
 
 (* ================================================================== *)
@@ -255,7 +256,7 @@ Theorem parse_proto_sound sanity buf a port :
     buf = d :: s /\
     scan_int s = Some (pv, d :: s2) /\ (to_int pv = 1 \/ to_int pv = 2)%Z /\
     s2 = ip ++ d :: s3 /\ forallb (fun c => negb (c =? d)) ip = true /\ lenN ip < max_ipstrlen /\
-    ipf ip = Some a /\ is_any a = false /\ (to_int pv = 2 <-> is_v4 a = false)%Z /\
+    ipf ip = Some a /\ is_any a = false /\ ((to_int pv = 2)%Z <-> is_v4 a = false) /\
     scan_int s3 = Some (port, e3) /\ head0 e3 = 124 /\
     (1 <= port <= 65535)%Z /\ (sanity = true -> 1024 <= port)%Z.
 Proof.
@@ -289,29 +290,31 @@ Proof.
   rewrite D1 in *.
   destruct (find_first_eq_split _ _ _ F) as (ip & s3 & A & B & C & D & G).
   assert (IPF : ipf ip = Some a0).
-  { subst a0. rewrite <- C in *. unfold assign in *. destruct (ipf ip) as [x|]; [reflexivity|].
+  { subst a0. rewrite D1 in *. rewrite <- C in *. unfold assign in *. destruct (ipf ip) as [x|]; [reflexivity|].
     vm_compute in C3. discriminate. }
-  exists d, s, pv, s2, ip, s3, e3. fold (to_int pv).
   assert (T : to_int pv = wrap32 (sat64 pv)) by reflexivity.
-  repeat split; try assumption.
-  - lia.
-  - lia.
-  - rewrite <- D. exact SO.
-  - apply N.eqb_eq, C5b.
-  - lia.
-  - lia.
-  - intros ->. cbn [andb] in C6. lia.
-  - intros P2. apply negb_false_iff in C4. apply Bool.eqb_prop in C4.
-    assert (X : (wrap32 (sat64 pv) =? 2)%Z = true) by lia. rewrite X in C4. symmetry in C4.
-    apply negb_true_iff in C4. exact C4.
-  - intros V. apply negb_false_iff in C4. apply Bool.eqb_prop in C4. rewrite V in C4. cbn [negb] in C4. lia.
+  assert (P12 : (to_int pv = 1 \/ to_int pv = 2)%Z) by (rewrite T; lia).
+  assert (LEN : lenN ip < max_ipstrlen) by lia.
+  assert (SO' : scan_int s3 = Some (pm, e3)) by (rewrite D; exact SO).
+  assert (H124 : head0 e3 = 124) by (apply N.eqb_eq, C5b).
+  assert (RNG : (1 <= pm <= 65535)%Z) by lia.
+  assert (SA : sanity = true -> (1024 <= pm)%Z) by (intros ->; cbn [andb] in C6; lia).
+  assert (FAM : (to_int pv = 2)%Z <-> is_v4 a0 = false).
+  { rewrite T. apply negb_false_iff in C4. apply Bool.eqb_prop in C4. split.
+    - intros P2. assert (X : (wrap32 (sat64 pv) =? 2)%Z = true) by lia. rewrite X in C4.
+      symmetry in C4. apply negb_true_iff in C4. exact C4.
+    - intros V. rewrite V in C4. cbn [negb] in C4. lia. }
+  exists d, s, pv, s2, ip, s3, e3.
+  split; [reflexivity|]. split; [exact SP|]. split; [exact P12|]. split; [exact A|]. split; [exact G|].
+  split; [exact LEN|]. split; [exact IPF|]. split; [exact C3|]. split; [exact FAM|]. split; [exact SO'|].
+  split; [exact H124|]. split; [exact RNG|exact SA].
 Qed.
 
 (* full strength for the protocol number too when it fits an int *)
 Theorem parse_proto_protocol_partial sanity d s a port pv r :
   parse_proto_ip_port ipf sanity (d :: s) = EOk a port ->
   scan_int s = Some (pv, r) -> (- two31 <= pv < two31)%Z ->
-  (pv = 1 \/ pv = 2)%Z /\ (pv = 2 <-> is_v4 a = false)%Z.
+  (pv = 1 \/ pv = 2)%Z /\ ((pv = 2)%Z <-> is_v4 a = false).
 Proof.
   intros H S R. destruct (parse_proto_sound _ _ _ _ H) as (d' & s' & pv' & s2 & ip & s3 & e3 & A & B & C & _ & _ & _ & _ & _ & D & _).
   inversion A; subst d' s'. rewrite S in B. inversion B; subst pv'.
